@@ -65,6 +65,21 @@ func genomeDigest(w hw, g *genetics.Genome) {
 		w.b(e.IsEnabled)
 		w.i(int64(traitId(e.Link.Trait)))
 	}
+	for _, cg := range g.ControlGenes { // modules in list order (C17 covers modular genomes under the sequential executor)
+		w.i(cg.InnovationNum)
+		w.f(cg.MutationNum)
+		w.b(cg.IsEnabled)
+		w.i(int64(cg.ControlNode.Id))
+		w.i(int64(cg.ControlNode.ActivationType))
+		for _, l := range cg.ControlNode.Incoming {
+			w.i(int64(l.InNode.Id))
+			w.f(l.ConnectionWeight)
+		}
+		for _, l := range cg.ControlNode.Outgoing {
+			w.i(int64(l.OutNode.Id))
+			w.f(l.ConnectionWeight)
+		}
+	}
 }
 
 func popDigests(pop *genetics.Population) map[string]interface{} {
@@ -159,7 +174,7 @@ func recordDigests(args []string) int {
 	for si, sc := range scs {
 		perturb(*pk, si)
 		rand.Seed(sc.Seed)
-		opts := preset(sc.Preset, sc.PopSize)
+		opts := sc.options()
 		ctx := neat.NewContext(context.Background(), opts)
 		rec := &epochRec{in: newInterner(), stats: map[string]int{}}
 		pop, _, how, err := construct(sc, opts, rec)
